@@ -1114,7 +1114,11 @@ def p_fail_retry(m, recs, offset):
                 not _raises(lambda: o.get_address(2 ** 31), AssertionError, ValueError):
             return "an offset outside 0..2^31-1 was derived"
         for off in (offset, 0):
-            got, want = o.get_address(off), _ref_addr(m, e2[0], e2[3], off, False, True)
+            try:
+                got = o.get_address(off)
+            except Exception as ex:
+                got = f"{type(ex).__name__}: {str(ex)[:80]}"
+            want = _ref_addr(m, e2[0], e2[3], off, False, True)
             if got != want:
                 return f"get_address({off}) after failed calls on the same descriptor gives {got}, expected {want}"
         d = _obj_is(o, m, e2)
@@ -1467,6 +1471,140 @@ def generate(ctx):
     yield construct_case(1, [a.rec(r, idx=5), a.rec(r)])
     yield ("prop", "ctor_own_output", [1, [a.rec(r), a.rec(r, idx=5)]])
 
+    def ptext_case(t):
+        ctx.label("text/parse")
+        p, x, c = record(P2WSHSortedMulti.parse, t)
+        return ("corr", "parse_text", [t, json_table(t), p, x, c])
+
+    def audit_cases(r):
+        """round-3 audit cases; they run BEFORE the long text-layer / substitution sections (so that the engine's search for a
+        failing input reaches them) on a random stream of their own derived from the run's seed (the streams of the
+        sections that follow are unchanged)"""
+        # ---- round-3 audit: alternative entry points, defaults, coincidences, character classes, per-element attributes,
+        #      shared state (every expectation comes from the references of this file)
+        def with_version(xpub, vhex):
+            return ref_b58check_encode(bytes.fromhex(vhex) + ref_b58check_decode(xpub)[4:])
+
+        def hetero(net, n):
+            """records that differ in EVERY per-element attribute: account index (record j's change branch is another record's
+            receive branch), path, fingerprint, SLIP-132 version; the versions are chosen so that the order of the supplied
+            texts is the reverse of the order of the normalised xpubs, and the supplied order is neither"""
+            keys = sorted(r.sample(pool[net], n), key=lambda k: k.plain)
+            vs = MAIN_VERSIONS if net == "mainnet" else TEST_VERSIONS
+            desc = sorted(vs, key=lambda v: with_version(keys[0].plain, v)[:4], reverse=True)
+            above = [v for v in desc if with_version(keys[0].plain, v)[:4] > keys[0].plain[:4]]
+            order = (above[:min(n - 1, len(above))] + [vs[0]] + [v for v in desc if v not in above and v != vs[0]] + desc[-1:] * n)[:n]
+            idxs = [1, 0, 7, 2 ** 31 - 2, 2, 5]
+            recs = [[k.xfp, k.path, with_version(k.plain, order[j]), idxs[j]] for j, k in enumerate(keys)]
+            assert any(q[2] == k.plain for q, k in zip(recs, keys)) and any(q[2] != k.plain for q, k in zip(recs, keys))
+            return recs[1:] + recs[:1]
+
+        hets = [(2, "mainnet", hetero("mainnet", 3)), (1, "testnet", hetero("testnet", 2))]
+        if not quick:
+            hets += [(3, "testnet", hetero("testnet", 4)), (2, "mainnet", hetero("mainnet", 6))]
+        for m, net, recs in hets:
+            n = len(recs)
+            ctx.label("audit/hetero-wallet")
+            exp = ref_expected(m, recs)
+            sup = [ref_norm_xpub(k)[0] for _, _, k, _ in recs]
+            assert sorted(sup) != sup and sorted(k for _, _, k, _ in recs) != [k for _, _, k, _ in sorted(recs, key=lambda q: ref_norm_xpub(q[2])[0])]
+            ctx.label("audit/slip132-order-differs-from-xpub-order")
+            yield construct_case(m, recs)
+            yield construct_case(m, recs, srt=0)
+            yield construct_case(m, recs, cs=exp[2])
+            yield ("prop", "roundtrip", [m, recs])
+            norm = [[q["xfp"], q["path"], q["xpub_parent"], q["account_index"]] for q in exp[0]]
+            off = r.choice([0, 1, 2 ** 31 - 1, r.randrange(2 ** 31)])
+            for chg in (0, 1):
+                yield address_case(m, NETNUM[net], norm, off, chg)
+            yield address_case(m, NETNUM[net], norm, off, 1, srt=0)
+            yield ("prop", "address", [m, recs, off])
+            yield ("prop", "order", [m, recs, list(reversed(range(n))), int(n == 3 or not quick), off, 1])
+            yield ("prop", "defaults", [m, recs, off])
+            yield ("prop", "share", [m, recs, off, n % 2])
+            if n != 3 or not quick:
+                yield ("prop", "fail_retry", [m, recs, off])
+            yield ("prop", "caravan", [m, recs, ["name %d" % j for j in range(n)]])
+            plain = [[x, p, ref_norm_xpub(k)[0], i] for x, p, k, i in recs]
+            canon = [q for q in plain if impl_path_ok(q[1]) and q[1] == q[1].strip() and q[1][:1] == "m"]
+            if len(canon) == n:
+                ctx.label("audit/multiwallet-flow")
+                if n == 3 or not quick:
+                    yield ("prop", "mw_flow", [m, plain, [1] * n, off])
+                yield ("prop", "mw_flow", [m, plain, [j % 2 for j in range(n)], off])
+                if n != 3 or not quick:
+                    yield ("prop", "mw_flow", [m, [[x, p, k, i] for (x, p, _, i), (_, _, k, _) in zip(plain, recs)], [0] * n, off])
+        # one wallet of the ordinary kind whose children (offset 0, receive) sort differently from their parents
+        for m, n, net, recs in sorted(wallets, key=lambda w: w[1]):
+            if n >= 2 and all(i + 1 < 2 ** 31 for _, _, _, i in recs):
+                e = ref_expected(m, recs)
+                secs = [ref_child_sec(q["xpub_parent"], q["account_index"], 0) for q in e[0]]
+                if secs != sorted(secs):
+                    ctx.label("audit/children-sort-differently")
+                    yield ("prop", "defaults", [m, recs, r.randrange(2 ** 31)])
+                    yield ("prop", "caravan", [m, recs, ["a", "b", "c", "d", "e", "f"][:n]])
+                    break
+        # (c) two slots with the same xpub: different branches, neighbouring branches (change of one = receive of the other),
+        #     the very same key twice; network taken from a record other than the first
+        a, b, t = pool["mainnet"][0], pool["mainnet"][1], pool["testnet"][0]
+        for i0, i1 in ((0, 1), (3, 3), (5, 0)):
+            ctx.label("audit/same-xpub-twice")
+            dup = [a.rec(r, idx=i0), a.rec(r, idx=i1)]
+            if i0 == 0:
+                yield address_case(2, 0, dup, 0, 0)
+                yield address_case(2, 0, dup, 0, 1)
+                yield ("prop", "defaults", [1, dup, 2])
+            else:
+                yield address_case(1, 0, dup, 1, int(i0 == 3), srt=int(i0 == 3))
+            yield ("prop", "address_at", [2, dup, 1, int(i0 == 3), int(i0 != 5)])
+        for recs in ([a.rec(r), b.rec(r), t.rec(r)], [t.rec(r), pool["testnet"][1].rec(r), a.rec(r, slip=True)],
+                     [a.rec(r, slip=True), t.rec(r, slip=True), b.rec(r)]):
+            ctx.label("audit/network-mix-3")
+            yield construct_case(1, recs)
+            yield construct_case(1, recs, srt=0)
+            yield parse_case(1, [[x, p[1:], k, i] for x, p, k, i in recs], "")
+        # (d) fingerprints of one character class
+        for xf in ["00000000", "12345678", "99999999", "ffffffff", "abcdefab", "ABCDEFAB", "0000000a", "a0000000", "0e000000",
+                   "1e999999", "00000inf", "0x000000", "000000_0", "+0000000", " 0000000", "0000000 "]:
+            ctx.label("audit/xfp-class")
+            yield construct_case(1, [[xf, a.path, a.plain, 0]])
+            yield parse_case(1, [[xf, a.path[1:], a.plain, 0]], "")
+            yield ("prop", "ctor_own_output", [1, [[xf, a.path, a.plain, 0]]])
+        # (e) a character outside the descriptor charset inside an otherwise valid path (is_valid_bip32_path is forgiving)
+        for bp in ["m/48h/\t1", "m/48h/1\n", "m/\x0b1", "m/1\x1f/2", "m/1\xa0", "m/\u20031"]:
+            ctx.label("audit/foreign-char-in-path")
+            yield ("prop", "ctor_own_output", [1, [[a.xfp, bp, a.plain, 0]]])
+            if bp.isascii():      # the text layer of the model is ASCII (see ASSUMPTIONS): Unicode blanks only through the predicate
+                yield construct_case(1, [[a.xfp, bp, a.plain, 0]])
+                yield ptext_case(f"wsh(sortedmulti(1,[{a.xfp}{bp[1:]}]{a.plain}/0/*))")
+        # (d) checksum texts of a single character class, and texts / descriptors whose CHECKSUM is of an unusual class
+        for g in range(3):
+            alpha = INPUT_CHARSET[32 * g: 32 * g + 32]
+            for ln in list(range(1, 10)) + [30, 31, 32, 299, 300, 301]:
+                tx = rtext(r, ln, alpha)
+                ctx.label("audit/checksum-one-group")
+                yield ("corr", "checksum", [tx])
+                yield ("corr", "core_checksum", [tx])
+                yield ("prop", "checksum_ref", [tx])
+        for alpha in ["0123456789", "abcdefghijklmnopqrstuvwxyz", "ABCDEFGHIJKLMNOPQRSTUVWXYZ", "()[],'/*@:$%{}&+-.;<=>?!^_|~`#\"\\ ",
+                      "0", " ", "~", "q", "Z", "\\"]:
+            for ln in (8, 99, 100, 101):
+                tx = rtext(r, ln, alpha)
+                ctx.label("audit/checksum-char-class")
+                yield ("corr", "checksum", [tx])
+                yield ("prop", "checksum_ref", [tx])
+        for tx, cs in GROUND_TEXTS:
+            ctx.label("audit/ground-checksum")
+            yield ("corr", "checksum", [tx])
+            yield ("prop", "checksum_is", [tx, cs])
+        for idx, cs in GROUND:
+            ctx.label("audit/ground-descriptor")
+            yield ("prop", "ground", [idx, cs])
+            yield ptext_case(GROUND_PRE + "%d/*))#%s" % (idx, cs))
+
+    import random as _random
+    yield from audit_cases(_random.Random(f"C16-audit:{ctx.seed}:{ctx.scale}"))
+
     # ---- text layer: int(), split/join, the key-record regex, parse_partial/full/any_key_record on text
     for t in ["0", "00", "7", "+1", "-1", "-0", " 1", "1 ", "\t1\n", "\x0b1\x0c", "\x1c1", "1\x1f", "1_0", "_1", "1_", "1__0",
               "", " ", "+", "-", "+-1", "++1", "1 0", "0x10", "1e3", "1.0", "+ 1", "1+", "2147483647", "2147483648",
@@ -1543,11 +1681,6 @@ def generate(ctx):
             t = "".join(r.choice(pieces) for _ in range(r.randrange(0, 8)))
         ctx.label("text/outer-regex")
         yield ("corr", "outer_groups", [t])
-
-    def ptext_case(t):
-        ctx.label("text/parse")
-        p, x, c = record(P2WSHSortedMulti.parse, t)
-        return ("corr", "parse_text", [t, json_table(t), p, x, c])
 
     import json as _json
     for text in sorted(sampled, key=len)[: ctx.n(3, 12)]:
@@ -1671,125 +1804,3 @@ def generate(ctx):
         idxs = [[r.choice([0, 1, 2, 256, 2 ** 16, 2 ** 31 - 1]), r.choice([0, 1, 5, 257, 2 ** 31 - 1])] for _ in range(ctx.n(6, 20))]
         ctx.label("reuse/hdpublickey")
         yield ("prop", "reuse_hdpub", [k.plain, idxs])
-
-    # ---- round-3 audit: alternative entry points, defaults, coincidences, character classes, per-element attributes,
-    #      shared state (every expectation comes from the references of this file)
-    def with_version(xpub, vhex):
-        return ref_b58check_encode(bytes.fromhex(vhex) + ref_b58check_decode(xpub)[4:])
-
-    def hetero(net, n):
-        """records that differ in EVERY per-element attribute: account index (record j's change branch is another record's
-        receive branch), path, fingerprint, SLIP-132 version; the versions are chosen so that the order of the supplied
-        texts is the reverse of the order of the normalised xpubs, and the supplied order is neither"""
-        keys = sorted(r.sample(pool[net], n), key=lambda k: k.plain)
-        vs = MAIN_VERSIONS if net == "mainnet" else TEST_VERSIONS
-        desc = sorted(vs, key=lambda v: with_version(keys[0].plain, v)[:4], reverse=True)
-        above = [v for v in desc if with_version(keys[0].plain, v)[:4] > keys[0].plain[:4]]
-        order = (above[:min(n - 1, len(above))] + [vs[0]] + [v for v in desc if v not in above and v != vs[0]] + desc[-1:] * n)[:n]
-        idxs = [1, 0, 7, 2 ** 31 - 2, 2, 5]
-        recs = [[k.xfp, k.path, with_version(k.plain, order[j]), idxs[j]] for j, k in enumerate(keys)]
-        assert any(q[2] == k.plain for q, k in zip(recs, keys)) and any(q[2] != k.plain for q, k in zip(recs, keys))
-        return recs[1:] + recs[:1]
-
-    hets = [(2, "mainnet", hetero("mainnet", 3)), (1, "testnet", hetero("testnet", 2))]
-    if not quick:
-        hets += [(3, "testnet", hetero("testnet", 4)), (2, "mainnet", hetero("mainnet", 6))]
-    for m, net, recs in hets:
-        n = len(recs)
-        ctx.label("audit/hetero-wallet")
-        exp = ref_expected(m, recs)
-        sup = [ref_norm_xpub(k)[0] for _, _, k, _ in recs]
-        assert sorted(sup) != sup and sorted(k for _, _, k, _ in recs) != [k for _, _, k, _ in sorted(recs, key=lambda q: ref_norm_xpub(q[2])[0])]
-        ctx.label("audit/slip132-order-differs-from-xpub-order")
-        yield construct_case(m, recs)
-        yield construct_case(m, recs, srt=0)
-        yield construct_case(m, recs, cs=exp[2])
-        yield ("prop", "roundtrip", [m, recs])
-        norm = [[q["xfp"], q["path"], q["xpub_parent"], q["account_index"]] for q in exp[0]]
-        off = r.choice([0, 1, 2 ** 31 - 1, r.randrange(2 ** 31)])
-        for chg in (0, 1):
-            yield address_case(m, NETNUM[net], norm, off, chg)
-        yield address_case(m, NETNUM[net], norm, off, 1, srt=0)
-        yield ("prop", "address", [m, recs, off])
-        yield ("prop", "order", [m, recs, list(reversed(range(n))), int(n == 3 or not quick), off, 1])
-        yield ("prop", "defaults", [m, recs, off])
-        yield ("prop", "share", [m, recs, off, n % 2])
-        if n != 3 or not quick:
-            yield ("prop", "fail_retry", [m, recs, off])
-        yield ("prop", "caravan", [m, recs, ["name %d" % j for j in range(n)]])
-        plain = [[x, p, ref_norm_xpub(k)[0], i] for x, p, k, i in recs]
-        canon = [q for q in plain if impl_path_ok(q[1]) and q[1] == q[1].strip() and q[1][:1] == "m"]
-        if len(canon) == n:
-            ctx.label("audit/multiwallet-flow")
-            if n == 3 or not quick:
-                yield ("prop", "mw_flow", [m, plain, [1] * n, off])
-            yield ("prop", "mw_flow", [m, plain, [j % 2 for j in range(n)], off])
-            if n != 3 or not quick:
-                yield ("prop", "mw_flow", [m, [[x, p, k, i] for (x, p, _, i), (_, _, k, _) in zip(plain, recs)], [0] * n, off])
-    # one wallet of the ordinary kind whose children (offset 0, receive) sort differently from their parents
-    for m, n, net, recs in sorted(wallets, key=lambda w: w[1]):
-        if n >= 2 and all(i + 1 < 2 ** 31 for _, _, _, i in recs):
-            e = ref_expected(m, recs)
-            secs = [ref_child_sec(q["xpub_parent"], q["account_index"], 0) for q in e[0]]
-            if secs != sorted(secs):
-                ctx.label("audit/children-sort-differently")
-                yield ("prop", "defaults", [m, recs, r.randrange(2 ** 31)])
-                yield ("prop", "caravan", [m, recs, ["a", "b", "c", "d", "e", "f"][:n]])
-                break
-    # (c) two slots with the same xpub: different branches, neighbouring branches (change of one = receive of the other),
-    #     the very same key twice; network taken from a record other than the first
-    a, b, t = pool["mainnet"][0], pool["mainnet"][1], pool["testnet"][0]
-    for i0, i1 in ((0, 1), (3, 3), (5, 0)):
-        ctx.label("audit/same-xpub-twice")
-        dup = [a.rec(r, idx=i0), a.rec(r, idx=i1)]
-        if i0 == 0:
-            yield address_case(2, 0, dup, 0, 0)
-            yield address_case(2, 0, dup, 0, 1)
-            yield ("prop", "defaults", [1, dup, 2])
-        else:
-            yield address_case(1, 0, dup, 1, int(i0 == 3), srt=int(i0 == 3))
-        yield ("prop", "address_at", [2, dup, 1, int(i0 == 3), int(i0 != 5)])
-    for recs in ([a.rec(r), b.rec(r), t.rec(r)], [t.rec(r), pool["testnet"][1].rec(r), a.rec(r, slip=True)],
-                 [a.rec(r, slip=True), t.rec(r, slip=True), b.rec(r)]):
-        ctx.label("audit/network-mix-3")
-        yield construct_case(1, recs)
-        yield construct_case(1, recs, srt=0)
-        yield parse_case(1, [[x, p[1:], k, i] for x, p, k, i in recs], "")
-    # (d) fingerprints of one character class
-    for xf in ["00000000", "12345678", "99999999", "ffffffff", "abcdefab", "ABCDEFAB", "0000000a", "a0000000", "0e000000",
-               "1e999999", "00000inf", "0x000000", "000000_0", "+0000000", " 0000000", "0000000 "]:
-        ctx.label("audit/xfp-class")
-        yield construct_case(1, [[xf, a.path, a.plain, 0]])
-        yield parse_case(1, [[xf, a.path[1:], a.plain, 0]], "")
-        yield ("prop", "ctor_own_output", [1, [[xf, a.path, a.plain, 0]]])
-    # (e) a character outside the descriptor charset inside an otherwise valid path (is_valid_bip32_path is forgiving)
-    for bp in ["m/48h/\t1", "m/48h/1\n", "m/\x0b1", "m/1\x1f/2", "m/1\xa0", "m/\u20031"]:
-        ctx.label("audit/foreign-char-in-path")
-        yield ("prop", "ctor_own_output", [1, [[a.xfp, bp, a.plain, 0]]])
-        if bp.isascii():      # the text layer of the model is ASCII (see ASSUMPTIONS): Unicode blanks only through the predicate
-            yield construct_case(1, [[a.xfp, bp, a.plain, 0]])
-            yield ptext_case(f"wsh(sortedmulti(1,[{a.xfp}{bp[1:]}]{a.plain}/0/*))")
-    # (d) checksum texts of a single character class, and texts / descriptors whose CHECKSUM is of an unusual class
-    for g in range(3):
-        alpha = INPUT_CHARSET[32 * g: 32 * g + 32]
-        for ln in list(range(1, 10)) + [30, 31, 32, 299, 300, 301]:
-            tx = rtext(r, ln, alpha)
-            ctx.label("audit/checksum-one-group")
-            yield ("corr", "checksum", [tx])
-            yield ("corr", "core_checksum", [tx])
-            yield ("prop", "checksum_ref", [tx])
-    for alpha in ["0123456789", "abcdefghijklmnopqrstuvwxyz", "ABCDEFGHIJKLMNOPQRSTUVWXYZ", "()[],'/*@:$%{}&+-.;<=>?!^_|~`#\"\\ ",
-                  "0", " ", "~", "q", "Z", "\\"]:
-        for ln in (8, 99, 100, 101):
-            tx = rtext(r, ln, alpha)
-            ctx.label("audit/checksum-char-class")
-            yield ("corr", "checksum", [tx])
-            yield ("prop", "checksum_ref", [tx])
-    for tx, cs in GROUND_TEXTS:
-        ctx.label("audit/ground-checksum")
-        yield ("corr", "checksum", [tx])
-        yield ("prop", "checksum_is", [tx, cs])
-    for idx, cs in GROUND:
-        ctx.label("audit/ground-descriptor")
-        yield ("prop", "ground", [idx, cs])
-        yield ptext_case(GROUND_PRE + "%d/*))#%s" % (idx, cs))
